@@ -129,6 +129,7 @@ func mentions(e ast.Expr, what string) bool {
 
 func init() {
 	sections = append(sections, func() {
+		out.WriteString("set_option linter.unusedVariables false\n\n")
 		const wc = "pkg/utils/wildcards.go"
 		wf := parseFile(wc)
 		if s, ok := localStringConst(findFunc(wf, "MatchWildcardRegexp"), "legalChars"); ok {
